@@ -296,3 +296,57 @@ def show(p) -> str:
 
 def reset():
     _CACHE.clear()
+
+
+# ---------------------------------------------------------------------------
+# Rational functions: equality after clearing denominators.
+def _den_poly(t, e):
+    """base ** e for a positive integer e as an expanded polynomial."""
+    p = norm(t) if t.op == "nf.poly" else var(t)
+    r = const(1)
+    for _ in range(int(e)):
+        r = mul(r, p)
+    return r
+
+
+def clear_denominators(p):
+    """(N, D): p == N / D with D a product of the bases that occur with negative integer exponents (canonical sub-polynomials are expanded).
+
+    Bases with non-integer exponents stay where they are (they are opaque factors of the monomials)."""
+    need: dict = {}
+    for m in p:
+        for t, e in m:
+            if e < 0 and e.denominator == 1:
+                need[t] = max(need.get(t, 0), int(-e))
+    if not need:
+        return _expand(p), const(1)
+    num: dict = {}
+    for m, c in p.items():
+        term = const(c)
+        have = {t: int(-e) for t, e in m if e < 0 and e.denominator == 1}
+        rest = tuple((t, e) for t, e in m if not (e < 0 and e.denominator == 1))
+        term = mul(term, {rest: Fraction(1)}) if rest else term
+        for t, k in need.items():
+            miss = k - have.get(t, 0)
+            if miss:
+                term = mul(term, _den_poly(t, miss))
+        num = add(num, term)
+    den = const(1)
+    for t, k in need.items():
+        den = mul(den, _den_poly(t, k))
+    num, den = _expand(num), _expand(den)
+    # the expansion may expose further denominators (nested fractions)
+    if any(e < 0 and e.denominator == 1 for m in num for _t, e in m) or any(e < 0 and e.denominator == 1 for m in den for _t, e in m):
+        n1, d1 = clear_denominators(num)
+        n2, d2 = clear_denominators(den)
+        return _expand(mul(n1, d2)), _expand(mul(n2, d1))
+    return num, den
+
+
+def rat_equal(p, q) -> bool:
+    """p == q as rational functions of their bases."""
+    if p == q:
+        return True
+    n1, d1 = clear_denominators(p)
+    n2, d2 = clear_denominators(q)
+    return _expand(mul(n1, d2)) == _expand(mul(n2, d1))
